@@ -425,3 +425,59 @@ class Model:
             h.update(rel.encode())
             h.update(self.modules[rel].source.encode())
         return h.hexdigest()[:16]
+
+
+# ---------------------------------------------------------------------------------------------- canonical text
+_TORCH_UNARY = {"sqrt", "abs", "exp", "log", "sin", "cos", "tan", "atan", "conj", "clone", "detach", "sum", "max", "min", "norm", "clamp", "clip",
+                "transpose", "reshape", "unsqueeze", "squeeze", "matmul", "any", "all", "isinf", "numel", "zeros_like", "ones_like", "flip"}
+
+
+class _Canon(ast.NodeTransformer):
+    """Normalise spellings that do not change meaning, so that a shape rule compares meaning rather than text:
+    `x.f(args)` -> `torch.f(x, args)` for the tensor functions the package uses, `0.0` -> `0`, `x.shape[-1]` kept,
+    keyword arguments sorted, `not a is b` -> `a is not b`, `a == None` kept (never used)."""
+
+    def visit_Call(self, node: ast.Call):
+        self.generic_visit(node)
+        f = node.func
+        if isinstance(f, ast.Attribute) and f.attr in _TORCH_UNARY and not (isinstance(f.value, ast.Name) and f.value.id in ("torch", "np", "math", "warnings", "copy")):
+            node = ast.Call(func=ast.Attribute(value=ast.Name(id="torch", ctx=ast.Load()), attr=f.attr, ctx=ast.Load()),
+                            args=[f.value] + list(node.args), keywords=list(node.keywords))
+        node.keywords = sorted(node.keywords, key=lambda k: (k.arg is None, k.arg or ""))
+        return node
+
+    def visit_Constant(self, node: ast.Constant):
+        if isinstance(node.value, float) and node.value == int(node.value) and abs(node.value) < 1e6:
+            return ast.Constant(value=int(node.value))
+        return node
+
+    def visit_UnaryOp(self, node: ast.UnaryOp):
+        self.generic_visit(node)
+        if isinstance(node.op, ast.Not) and isinstance(node.operand, ast.Compare) and len(node.operand.ops) == 1:
+            flip = {ast.Is: ast.IsNot, ast.IsNot: ast.Is, ast.In: ast.NotIn, ast.NotIn: ast.In, ast.Eq: ast.NotEq, ast.NotEq: ast.Eq}
+            op = type(node.operand.ops[0])
+            if op in flip:
+                return ast.Compare(left=node.operand.left, ops=[flip[op]()], comparators=node.operand.comparators)
+        return node
+
+
+def canon(node_or_text) -> str:
+    """canonical text of a node (or of a pattern given as source text)"""
+    import copy
+    if isinstance(node_or_text, str):
+        try:
+            tree = ast.parse(node_or_text)
+        except SyntaxError:
+            return " ".join(node_or_text.split())
+        out = ast.unparse(ast.fix_missing_locations(_Canon().visit(tree)))
+        return out
+    tree = copy.deepcopy(node_or_text)
+    return ast.unparse(ast.fix_missing_locations(_Canon().visit(tree)))
+
+
+def has_form(node: ast.AST, *patterns: str) -> bool:
+    """every pattern (source text of statements / expressions) occurs in the canonical text of node"""
+    def flat(t):
+        return "\n".join(ln.strip() for ln in t.splitlines())
+    src = flat(canon(node))
+    return all(flat(canon(p)) in src for p in patterns)
